@@ -22,7 +22,7 @@ from fractions import Fraction
 from harness import core
 
 MANIFEST_ENTRY = {
-    "text": "Lean theorems over an executable model of the summary aggregation: C14_partial (for every program list without the two reserved names and every world the real code accepts, every simulation count, both retention settings and every enumeration order of every directory scan, the run completes and both summary tables are a permutation of one row per (program, simulation) computed from that pair's own files), guard_exact / C14_rejected (the run raises exactly when some pair wrote a timeseries / emissions / estimate file without data rows), runAll_closed_form, once_each, own_files_only, perm_invariant, retention_invariant, estimate_floor, estJoin_perm_invariant, cost_ratios, cost_once_each, concrete_mit_cell / concrete_cost_cell / cost_ratios_concrete (the two cost columns are the pair's own sum of mitigated emissions and sum of daily cost), batch_sizes_sum, batch_sizes_le_five, batch_sims_eq_range, yearly_shares_complete / window_complete / C14_yearly_partial (the yearly shares of frames of closed records add up to their values, leap years included), year_length / feb_length (calendar facts of the model's ordinals), genAll_frame / legacy_rows_preserved (rows of earlier batches are carried over unchanged and new rows do not depend on them). C14_counterexample, C14_counterexample_logs, C14_counterexample_zero_rows refute the unrestricted statement (program named kept..., program named Logs, a file without rows); C14_yearly_counterexample refutes share completeness for open-ended records. The model is tied to the real SimulationManager batch loops (debug and multiprocessing), SummaryOutputManager, summary_outputs, summary_output_helpers, summary_output_mapper and batch_simulations by running them over generated program folders with os.scandir permuted independently per call and comparing both summary files and the folder contents after every batch and the cost summary at the end with the compiled model driven by the recorded listings, and with the theorem-level run function on the same world; a direct oracle recomputes every statistic from the pair's own generated data and re-runs every world under a second enumeration order.",
+    "text": "Lean theorems over an executable model of the summary aggregation: C14_partial (for every program list without the two reserved names and every world the real code accepts, every simulation count, both retention settings and every enumeration order of every directory scan, the run completes and both summary tables are a permutation of one row per (program, simulation) computed from that pair's own files), guard_exact / C14_rejected (the run raises exactly when some pair wrote a timeseries / emissions / estimate file without data rows), runAll_closed_form, once_each, own_files_only, perm_invariant, retention_invariant, estimate_floor, estJoin_perm_invariant, cost_ratios, cost_once_each, concrete_mit_cell / concrete_cost_cell / cost_ratios_concrete (the two cost columns are the pair's own sum of mitigated emissions and sum of daily cost), batch_sizes_sum, batch_sizes_le_five, batch_sims_eq_range, yearly_shares_complete / window_complete / C14_yearly_partial (the yearly shares of frames of closed records add up to their values, leap years included), year_length / feb_length (calendar facts of the model's ordinals), genAll_frame / legacy_rows_preserved (rows of earlier batches are carried over unchanged and new rows do not depend on them), runInFolder_eq_runAll / C14_history / uncleared_folder_keeps_stale_rows (run-history level: initialize_outputs clears the folder, so after any history of runs from any prior folder state the tables hold exactly the last run's pairs; without the clean-up every old row survives). C14_counterexample, C14_counterexample_logs, C14_counterexample_zero_rows refute the unrestricted statement (program named kept..., program named Logs, a file without rows); C14_yearly_counterexample refutes share completeness for open-ended records. The model is tied to the real SimulationManager batch loops (debug and multiprocessing), SummaryOutputManager, summary_outputs, summary_output_helpers, summary_output_mapper and batch_simulations by running them over generated program folders with os.scandir permuted independently per call and comparing both summary files and the folder contents after every batch and the cost summary at the end with the compiled model driven by the recorded listings (single runs through the real initialize_outputs and histories of two or three runs into the same output folder, the model keeping its folder state), and with the theorem-level run function on the same world; a direct oracle recomputes every statistic from the pair's own generated data and re-runs every world under a second enumeration order.",
     "design_ref": "DESIGN.md 5.14",
     "note": "trusted: Lean kernel + propext/Classical.choice/Quot.sound; the hand-written model (tied by sampled correspondence, not proof); harness adapter and generators; pandas read_csv/to_csv, merge, groupby and NumPy's percentile as reference semantics (the percentile is an uninterpreted function of the column in the model and is evaluated with NumPy on the column the model names); numbers restricted to a grid on which float arithmetic is exact (CSV float round-trip drift of non-dyadic values is outside the model); row order inside a summary file and the Summary Files switches are not modelled (one world per switch setting is compared per run); a rejected file stops the real run inside a call while the model only flags the call",
     "technique": "Lean 4 closed-form/permutation proofs over a directory-listing model + differential correspondence with the real aggregation code under permuted os.scandir + direct recomputation oracle",
@@ -196,11 +196,39 @@ def variant_world(rng, a):
     return b
 
 
-def gen_world(rng, n=None, reserved=None, quirk=False, base="P_none", est_without_rep=False, n_progs=None):
+def gen_history(rng, steps):
+    """worlds for consecutive runs into one output folder: overlapping program sets (a program may
+    disappear or appear), other simulation counts (more, fewer, equal), retention settings, years"""
+    pool = rng.sample(POOL, 3)
+    worlds = []
+    for i in range(steps):
+        progs = [p for p in pool if rng.random() < 0.7] or [pool[0]]
+        n = rng.choice([1, 3, 5, 6, 7, 11] if i else [3, 6, 7, 11])
+        if i and rng.random() < 0.4:
+            n = rng.choice([1, 2, 3])  # fewer simulations than before: stale rows could not be overwritten
+        w = gen_world(rng, n=n, programs=progs)
+        w["logs"] = True if i == 0 else w["logs"]
+        worlds.append(w)
+    return worlds
+
+
+JUNK = {
+    "Timeseries Summary.csv": "Program Name,Simulation,Total Cost ($)\nP_old,0,5\nP_none,0,7\n",
+    "Emissions Summary.csv": "Program Name,Simulation\nP_old,0\nP_none,0\n",
+    "Cost Summary.csv": "Program Name,Simulation\nP_old,0\n",
+    "P_old/keptP_old_0_timeseries.csv": "Date\n2020-01-01\n",
+    "P_none/P_none_9_timeseries.csv": "Date\n2020-01-01\n",
+    "Summary Visualizations/plot.png": "x",
+    "notes.txt": "x",
+}
+
+
+def gen_world(rng, n=None, reserved=None, quirk=False, base="P_none", est_without_rep=False, n_progs=None,
+              programs=None):
     y0 = rng.choice([2020, 2022, 2023, 2024])
     years = list(range(y0, y0 + rng.choice([1, 1, 2, 3])))
     k = rng.choice([1, 2, 2, 3]) if n_progs is None else n_progs
-    progs = rng.sample(POOL, k)
+    progs = rng.sample(POOL, k) if programs is None else list(programs)
     if reserved:
         progs = [p for p in progs[:-1] if p != reserved] + [reserved]
     programs = [base] + [p for p in progs if p != base]
@@ -260,26 +288,29 @@ def reset_line(world):
     return "reset %s %d %d" % (enc_list(map(str, world["years"])), k.numerator, k.denominator)
 
 
-def safe_model_lines(ctx, world, result, inp):
+def safe_model_lines(ctx, world, result, inp, step=0, history=False):
     """protocol lines for a world; an unexpected shape of the real run is a broken obligation and the
     world is still compared through the theorem-level run and judged by the oracle"""
     if result["error"] and result["error"].startswith("run:"):
         return [], []
     try:
-        return model_lines(world, result)
+        return model_lines(world, result, step, history)
     except (UnexpectedShape, AssertionError, KeyError, IndexError, ValueError) as e:
         ctx.broke("step-by-step correspondence with gen_summary_outputs", "%s: %s" % (type(e).__name__, e))
         ctx.count("unexpected-shape")
         crashed = bool(result["error"] and result["error"].startswith("gen:"))
-        return runall_lines(world, reset_line(world), crashed)
+        first = reset_line(world) if step == 0 else reset_line(world).replace("reset", "setrun", 1)
+        return runall_lines(world, first, crashed)
 
 
-def model_lines(world, result):
+def model_lines(world, result, step=0, history=False):
     """lines + for every line that is a query the tag under which its reply is compared"""
     from harness.adapters import summary as S
 
-    lines = [reset_line(world)]
-    tags = [("expect", "ok")]
+    # first run into a folder: a fresh model state; a later run of a history: the folder state of the
+    # model is kept and `initout` (the model's initialize_outputs) is applied to it
+    lines = [reset_line(world)] if step == 0 else [reset_line(world).replace("reset", "setrun", 1), "initout"]
+    tags = [("expect", "ok")] * len(lines)
     made = set()
     crashed = False
     sw = switches(world)
@@ -340,7 +371,8 @@ def model_lines(world, result):
         lines.append("cost %s %s" % (enc_list(nb), enc_list(econ)))
         tags.append(("cost", None))
     # the function the theorems are about (`runAll`: whole batch loop over the world) on the same world
-    lines.append(lines[0])
+    # (from whatever folder state the model is in: `runall` applies the model's initialize_outputs itself)
+    lines.append(reset_line(world).replace("reset", "setrun", 1) if history else lines[0])
     tags.append(("expect", "ok"))
     for p in world["programs"]:
         for sidx in range(world["n"]):
@@ -766,6 +798,14 @@ def oracle(ctx, world, result, inp, second=None):
         else:
             sig = "C14:cost:crash"
         ctx.violate(sig, "cost summary could not be produced: %s" % result["error"], inp)
+    # the output folder holds this run and nothing of an earlier one
+    if result["error"] is None and "top" in result["final"]:
+        allowed = {p + "/" for p in world["programs"]} | {"Logs/", "parameters.yaml", "Timeseries Summary.csv",
+                                                          "Emissions Summary.csv", "Cost Summary.csv"}
+        stale = [x for x in result["final"]["top"] if x not in allowed]
+        if stale:
+            ctx.violate("C14:history:stale-folder-entry", "the output folder still holds entries that are not of this "
+                        "run: %s" % stale[:4], inp)
     # retention: what is left in the program folders, from the configuration alone
     if result["error"] is None:
         from harness.adapters import summary as S2
@@ -866,7 +906,9 @@ def run(ctx):
                 "estimates present, #years, Logs folder present, world kind); interval ends/starts are put on Dec 31 / Jan 1 / Feb 28 / "
                 "Feb 29 / Mar 1, New-Year straddles and whole-(leap-)year covers on purpose; per-simulation files are written "
                 "with float formatting, extra columns and shuffled column order; worlds with equal program names but other "
-                "years / prices / contents run back to back in both orders and must repeat exactly; evaluations = worlds + unit-level protocol lines (file "
+                "years / prices / contents run back to back in both orders and must repeat exactly; histories of 2-3 runs into "
+                "the same output folder through the real initialize_outputs (other n / program sets / retention, junk in "
+                "the folder before the first run) are judged after every run; evaluations = worlds + unit-level protocol lines (file "
                 "names against the real regexes, batch_simulations 0..59 + random, calendar days 1999-12-25..2031-01-09)")
     core.lean_stage(ctx, MODULE, FILE, drivers=["drv_summary"])
     drv = core.LeanDriver("drv_summary")
@@ -961,9 +1003,35 @@ def run(ctx):
         slices.append((len(all_lines), len(lines), tags))
         all_lines += lines
         runs.append((w, seed, kind, r1, r2))
+    # histories of runs into the SAME output folder through the real initialize_outputs: other
+    # simulation counts / program sets / retention per run, an arbitrary folder state before the first
+    # run; the model keeps its folder state across the runs; the oracle judges every run
+    import random as _random
+
+    hist_inputs = {}
+    for h in range(ctx.pick(3, 14)):
+        ws = gen_history(ctx.rng, ctx.rng.choice([2, 2, 3]))
+        if h == 0:  # fewer simulations and fewer programs in the re-run, outputs not kept
+            ws[0]["keep_all"], ws[1]["keep_all"] = False, False
+            if ws[1]["n"] >= ws[0]["n"]:
+                ws[1] = gen_world(ctx.rng, n=max(1, ws[0]["n"] - 4), programs=[p for p in ws[0]["programs"] if p != "P_none"][:1])
+                ws[1]["keep_all"] = False
+        seed = ctx.rng.randrange(10 ** 6)
+        junk = JUNK if h % 2 == 0 else None
+        rs1 = S.run_history(ws, _random.Random(seed), "shuffle", junk)
+        rs2 = S.run_history(ws, _random.Random(seed + 7919), "shuffle", junk)
+        for i, (w, r1, r2) in enumerate(zip(ws, rs1, rs2)):
+            kind = "rerun-history"
+            inp = {"history": ws, "step": i, "junk": junk is not None, "perm_seed": seed, "kind": kind, "world": w}
+            lines, tags = safe_model_lines(ctx, w, r1, inp, step=i, history=True)
+            slices.append((len(all_lines), len(lines), tags))
+            all_lines += lines
+            runs.append((w, seed, kind, r1, r2))
+            hist_inputs[len(runs) - 1] = inp
+        ctx.count("histories")
     replies = drv.run(all_lines)
-    for (w, seed, kind, r1, r2), (start, cnt, tags) in zip(runs, slices):
-        inp = {"world": w, "perm_seed": seed, "kind": kind}
+    for idx, ((w, seed, kind, r1, r2), (start, cnt, tags)) in enumerate(zip(runs, slices)):
+        inp = hist_inputs.get(idx) or {"world": w, "perm_seed": seed, "kind": kind}
         correspond(ctx, w, r1, replies[start:start + cnt], tags, inp)
         oracle(ctx, w, r1, inp, second=r2)
         ctx.evaluations += 1
@@ -1012,6 +1080,23 @@ def replay(ctx, data):
         print("replay: broken obligation / correspondence:", data.get("broken_obligations"),
               json.dumps(data.get("correspondence_disagreements"), default=str)[:3000])
         return 1
+    if "history" in inp:
+        import random
+
+        from harness.adapters import summary as S
+
+        junk = JUNK if inp.get("junk") else None
+        rs1 = S.run_history(inp["history"], random.Random(inp.get("perm_seed", 0)), "shuffle", junk)
+        rs2 = S.run_history(inp["history"], random.Random(inp.get("perm_seed", 0) + 7919), "shuffle", junk)
+        for i, (w, r1, r2) in enumerate(zip(inp["history"], rs1, rs2)):
+            before = len(ctx.violations)
+            oracle(ctx, w, r1, {"world": "(see replay file)"}, second=r2)
+            print("run %d into the same folder: programs %s n=%d keep_all=%s -> ts keys %s" % (
+                i, w["programs"], w["n"], w["keep_all"],
+                sorted((r["Program Name"], int(r["Simulation"])) for r in (r1["final"]["ts"] or []))[:12]))
+            for v in ctx.violations[before:]:
+                print("   oracle:", v["signature"], "-", v["what"][:200])
+        return 1 if ctx.violations else 0
     w = inp["world"]
     r1, r2 = run_pair(w, inp.get("perm_seed", 0))
     oracle(ctx, w, r1, {"world": "(see replay file)"}, second=r2)
